@@ -15,14 +15,23 @@ Faults : ONE CASE = ONE CONVERSATION x ALL ITS FAULT PLANS.  `prop` first runs t
          `InjectedFault(RuntimeError)` or, per case (case["exc"], pool EXC_KINDS, 12 equally weighted families), any other
          subclass of Exception: empty message, asyncio.TimeoutError, AssertionError, KeyError / LookupError / IndexError, a
          multi-line ValueError, UnicodeDecodeError, OSError, NotImplementedError (with / without message, a subclass),
-         RecursionError, StopIteration / StopAsyncIteration (inside the `async def` action), ArithmeticError /
+         RecursionError, StopIteration / StopAsyncIteration (PEP 479 inside an `async def` action, as they are in a synchronous one), ArithmeticError /
          ZeroDivisionError, AttributeError / TypeError, and two classes defined here (str() and repr() raise; non-string
          args).  BaseException-only classes (CancelledError, KeyboardInterrupt) legitimately propagate: not generated.
          The exception is raised by the fake action through the harness hook `Session.should_fail` (overridden in
          `FaultSession` so that a site is addressed relative to its turn: an earlier fault that shortens a rail chain does not
          shift the address of a later site).  Only registered custom actions fail; the LLM never does (excluded by the statement).
+Actions: HOW each custom action is implemented is a dimension of the configuration (cfg["impl"], kinds IMPL_KINDS, 4 families):
+         `async def` function (the shared fake) / bound async method; plain `def` / lambda / bound plain method; class with a
+         `run` method registered as a class / an instance of it; plain `def` that returns the coroutine of an async function.
+         The variants are registered over the shared fakes through the opt-in extension "c03-impl" of vf.pipeline and execute
+         the same body, so a plain `def` raises exactly the injected exception (StopIteration stays StopIteration).  At least a
+         quarter of the generated cases keep all actions `async def`.  Not generated: functools.partial objects, objects with only
+         `__call__`, staticmethod objects - the unchanged dispatcher runs none of them (status "failed" on every call, probed).
 Oracle : per plan, on the value returned by `generate`, the action trace and the scripted LLM's call log:
-         (i)   every turn returns - no exception leaves `generate`;
+         (i)   every turn returns - no exception leaves `generate`, and every single `generate` call comes back within
+               GENERATE_LIMIT seconds (normal: well under 1 s); a call that does not is repeated on fresh instances with
+               GENERATE_LIMIT_CONFIRM and reported as `generate-hangs` only if it does not return there either;
          (ii)  turn hit by a fault:  output-rail action failed on an LLM text -> that text (also in rewritten form) is absent
                from the reply;  input-rail action failed -> no generation call reaches the LLM after it, no dialog action runs,
                the reply carries no LLM text;  in both cases the reply is the failing rail's refusal / rail exception or the
@@ -43,7 +52,10 @@ Not asserted (DESIGN 4/C03 S): the reply of a turn whose dialog / retrieval acti
          fail-closed for rails that are not of the library convention `if not $allowed` (not generated).
 """
 import asyncio
+import inspect
 import itertools
+import signal
+import time
 
 from hypothesis import strategies as st
 
@@ -53,14 +65,25 @@ from vf.fakes import GENERATION_TASKS, Session, block_message, refusal_text
 
 PID = "C03"
 LEVEL = "fault_enumeration"
-CASE_TIMEOUT = 420
+CASE_TIMEOUT = 420  # one case runs many plans; a single `generate` call has its own limit (GENERATE_LIMIT)
 WALL = {"quick": 150, "thorough": 1500}
 INTERNAL_ERROR = "I'm sorry, an internal error has occurred."  # v1 runtime.py:370, v2 runtime.py:270
+# "generate still returns normally": every single generate call runs under its own deadline (normal: < 1 s).  A call that
+# exceeds it is repeated once on fresh instances with the longer limit before it is reported (kind generate-hangs).
+GENERATE_LIMIT = 20
+GENERATE_LIMIT_CONFIRM = 60
 RULE = (
     "one case = configuration (v1 ~80% / v2 ~20% in the quick tier, 2:1 in the thorough tier; 1-3 ordered input rails and 1-2 ordered output rails from {check, rewrite(v1), "
     "block-or-rewrite(v1), shipped self check}; dialog rails on/off/(v2) llm continuation; enable_rails_exceptions on/off; v2 rails in "
     "config.yml or hand-written; v1 retrieval rail 0/1; a custom dialog action on route act_llm) x conversation of 2-3 turns "
-    "(route and accept|reject|rewrite verdict per (rail, turn)) x ALL fault plans of that conversation: prop runs the conversation "
+    "(route and accept|reject|rewrite verdict per (rail, turn)) x implementation kind of every custom action (cfg['impl']: at least 1/4 of the generated cases "
+    "keep every action the shared `async def` function, in the others each action draws one of 8 kinds in 4 families - async-function 5/15 (async def, "
+    "bound async method), sync-function 6/15 (plain def 3, bound plain method 2, lambda 1), object-with-run 3/15 (class registered as a class, "
+    "instance), sync-returning-coroutine 1/15 (plain def handing back the coroutine of an async function); every variant runs the body of the shared "
+    "fake, so a synchronous action raises the injected exception itself; labels impl=<family>, impl:mixed / impl:all-async-def, fault-in-impl=<family>, "
+    "counters actions.impl.<kind>, fault.impl.<kind>, cases.fault.<impl family>.raises.<exception family>; functools.partial / __call__-only / "
+    "staticmethod objects are not generated: the unchanged dispatcher never runs them) "
+    "x ALL fault plans of that conversation: prop runs the conversation "
     "fault-free, takes every fake-action invocation of that dry run as a call site [action, turn, j-th call in the turn] and then "
     "re-runs the conversation once per plan with the case's exception raised at the plan's sites (case['exc']: the harness's RuntimeError "
     "subclass with a one-line message, or one of the 21 other kinds of EXC_KINDS - 12 equally weighted families: plain-message, runtime-error "
@@ -71,14 +94,22 @@ RULE = (
     "and additionally every unordered pair of sites (plans='pairs': all thorough-tier cases and ~1/6 of the v1 quick cases); "
     "plans are enumerated inside prop, never sampled; their numbers are reported in coverage.counters (plans, plans.single, "
     "plans.pair, fault.<version>.<site class>, fault.turn>=2, next-turn-compared). Enumerated part: 10 all-accepting 3-turn conversations "
-    "(every site class in every turn, both versions, plain fault) + every exception kind of the pool x {v1, v2} on a 2-turn conversation with input-rail, "
-    "output-rail and dialog-action sites (single plans). evaluations counts cases (conversations), not plans. "
+    "(every site class in every turn, both versions, plain fault, async def actions) + 2-turn all-accepting conversations with input-rail, output-rail and "
+    "dialog-action sites, single plans, covering the product exception kind (21) x implementation: Colang 1.0 every implementation kind (per exception kind two "
+    "conversations whose 8 custom actions carry the 8 kinds, rotated with the exception kind), Colang 2.x every implementation family (per exception kind one "
+    "conversation with 2 input rails, 2 output rails and the dialog action = one kind of each of the 4 families + a second synchronous function; kinds within a "
+    "family and positions rotate) - so every (exception kind, implementation kind) pair and every (exception kind, implementation family, version) triple is executed at a call site. "
+    "Every generate call has its own deadline of 20 s (normal < 1 s); a call over the limit is repeated on fresh instances with 60 s and only then "
+    "reported (generate-hangs), otherwise counted (generate-calls-over-limit-not-confirmed). evaluations counts cases (conversations), not plans. "
     "Non-trivial case = at least one executed plan whose fault hit an input- or output-rail action; distinct by the whole case "
     "(configuration + conversation + plan mode), so distinct_nontrivial counts conversations, each standing for all its plans."
 )
 ASSUMPTIONS = [
-    "actions are fakes (async functions) registered with register_action; the fault is an exception raised inside the action body at its k-th invocation (Session.should_fail hook): a RuntimeError subclass or, per case, another subclass of Exception from the pool EXC_KINDS; LLM provider failures are excluded as the statement says",
-    "'raises an exception' is read as 'raises any subclass of Exception': BaseException-only classes (asyncio.CancelledError, KeyboardInterrupt, SystemExit) propagate by design and are not injected; a StopIteration raised in an async action reaches the dispatcher as the RuntimeError Python turns it into (PEP 479)",
+    "actions are fakes registered with register_action: async functions or, per action (cfg['impl']), a bound async method, a plain def, a lambda, a bound plain method, a class with a run method (registered as class or as instance) or a plain def returning a coroutine - the ways of writing an action that the unchanged dispatcher executes; the fault is an exception raised inside the action body at its k-th invocation (Session.should_fail hook): a RuntimeError subclass or, per case, another subclass of Exception from the pool EXC_KINDS; LLM provider failures are excluded as the statement says",
+    "'raises an exception' is read as 'raises any subclass of Exception': BaseException-only classes (asyncio.CancelledError, KeyboardInterrupt, SystemExit) propagate by design and are not injected; a StopIteration raised in an async action reaches the dispatcher as the RuntimeError Python turns it into (PEP 479), a synchronous action raises it unchanged",
+    "functools.partial objects, objects that only define __call__ and staticmethod objects are not action implementations: the unchanged dispatcher answers every call of them with status 'failed' (probed), so there is no fault-free behaviour to compare with",
+    "actions registered as a class / instance receive only the parameters the flow passes explicitly (no `context`), as the runtime does for every non-function action; the oracle does not use the context the fakes record",
+    "'generate still returns normally' includes 'returns at all': a generate call that is still running after 20 s and, repeated on fresh LLMRails instances with the same history, after 60 s (normal: well under 1 s) is a hang; after such a call the LLMRails instances and the event loop are discarded (pipeline.reset_runtime)",
     "the shipped self check rails are part of the rail pool but are not fault sites: their only failure mode is the LLM call",
     "Colang 2.x rails are generated in the guardrails-library convention only (`$allowed = await A(...)` / `if not $allowed` / refuse / abort); a rail testing `if $flagged` fails open by construction and is out of scope",
     "the caller keeps the conversation like the server does: v1 passes previous user messages and returned replies back as `messages`, v2 the returned `state`",
@@ -119,8 +150,8 @@ class StructuredError(Exception):
 
 # what the failing custom action raises: "for all exceptions" = any subclass of Exception, not only ones that carry a one-line
 # message.  BaseException-only classes (CancelledError, KeyboardInterrupt, SystemExit, GeneratorExit) legitimately propagate
-# and are not generated.  All fake actions are `async def`, so "stopiter" exercises PEP 479 (the coroutine turns StopIteration
-# into RuntimeError) and "stopasync" leaves the coroutine unchanged.
+# and are not generated.  In an `async def` action "stopiter" exercises PEP 479 (the coroutine turns StopIteration into
+# RuntimeError) and "stopasync" leaves the coroutine unchanged; a synchronous action (see IMPL_KINDS) raises both as they are.
 EXC_KINDS = {
     "empty": RuntimeError,  # str(e) == ""
     "timeout": asyncio.TimeoutError,  # what asyncio.wait_for raises around a slow service; empty message too
@@ -177,16 +208,204 @@ class FaultSession(Session):
         raise EXC_KINDS[kind]()
 
 
+# ------------------------------------------------------------------------------------------------
+# how a custom action is implemented: the dispatcher treats functions / methods (awaited if they return a coroutine, else
+# called synchronously inside the event loop), classes (instantiated at first use) and other objects (`.run(**params)`)
+# differently, and so does the code that decides which special parameters (`context`, ...) an action receives.
+#
+# cfg["impl"] = {"in": [kind per input rail], "out": [kind per output rail], "ret": [kind per retrieval rail], "dialog": kind}
+# (the entry of a shipped self-check rail is ignored; a missing entry means "async"); the spec also carries "ext": IMPL_EXT, the
+# opt-in extension of vf.pipeline through which the variants are registered OVER the shared `async def` fakes of the same name.
+# Every variant executes the body of the shared fake (verdict tables, trace, fault hook), only the callable around it differs.
+
+IMPL_EXT = "c03-impl"
+IMPL_KINDS = {
+    "async": "async-function",  # async def f(text=None, context=None)            - the shared fake itself
+    "async-method": "async-function",  # bound `async def` method of an object holding the actions
+    "sync": "sync-function",  # def f(text=None, context=None)
+    "lambda": "sync-function",  # lambda text=None, context=None: ...
+    "method": "sync-function",  # bound plain method of an object holding the actions
+    "class": "object-with-run",  # class with `def run(self, **kwargs)`, registered as a class (instantiated at first use)
+    "instance": "object-with-run",  # instance of such a class
+    "sync-coro": "sync-returning-coroutine",  # plain def that hands back the coroutine of an async function (thin wrapper)
+}
+IMPL_ORDER = ["async", "sync", "class", "method", "sync-coro", "instance", "lambda", "async-method"]
+# not generated because the unchanged dispatcher does not run them at all (every call ends in status "failed", probed):
+# functools.partial objects, objects that only define __call__, staticmethod objects.
+
+_VARIANTS = """
+def plain({sig}):
+    return call({args})
+
+lam = lambda {sig}: call({args})
+
+def wrapper({sig}):
+    return acall({args})
+
+class Actions:
+    def method(self, {sig}):
+        return call({args})
+
+    async def amethod(self, {sig}):
+        return await acall({args})
+
+class Runner:
+    def run(self, **kwargs):
+        return call(**kwargs)
+"""
+
+
+def _step(afn, kwargs):
+    """Executes the body of a shared fake synchronously.  The fakes are `async def` functions that never await, so one
+    `send` runs the whole body.  An injected StopIteration reaches us as the RuntimeError PEP 479 makes of it inside a
+    coroutine: the original exception object is raised instead - a synchronous action raises exactly what its body raises."""
+    coro = afn(**kwargs)
+    try:
+        coro.send(None)
+    except StopIteration as done:
+        return done.value
+    except RuntimeError as e:
+        if isinstance(e.__cause__, StopIteration) and "raised StopIteration" in str(e):
+            raise e.__cause__
+        raise
+    coro.close()
+    raise RuntimeError("harness: a shared fake action awaited something, it cannot be given a synchronous implementation")
+
+
+def implement(kind, afn, name):
+    """The fake action `afn` (async def, all parameters optional) as an action object of implementation kind `kind`."""
+    if kind == "async":
+        return afn
+    params = inspect.signature(afn).parameters
+    if any(p.default is not None or p.kind != p.POSITIONAL_OR_KEYWORD for p in params.values()):
+        raise RuntimeError(f"harness: unexpected signature of the fake action {name}: {list(params.values())}")
+    ns = {"call": lambda **kw: _step(afn, kw), "acall": afn}
+    exec(_VARIANTS.format(sig=", ".join(f"{p}=None" for p in params), args=", ".join(f"{p}={p}" for p in params)), ns)
+    meta = getattr(afn, "action_meta", None)
+    targets = {
+        "sync": ns["plain"], "lambda": ns["lam"], "sync-coro": ns["wrapper"], "method": ns["Actions"].method,
+        "async-method": ns["Actions"].amethod, "class": ns["Runner"], "instance": ns["Runner"],
+    }
+    target = targets[kind]
+    target.__name__ = name  # vf.pipeline registers an action under its __name__
+    if meta is not None:
+        target.action_meta = dict(meta, name=name)  # (a bound method and an instance delegate the lookup to these objects)
+    if kind in ("method", "async-method"):
+        return getattr(ns["Actions"](), "method" if kind == "method" else "amethod")
+    if kind == "instance":
+        obj = target()
+        obj.__name__ = name
+        return obj
+    return target
+
+
+def _impl_of(cfg, cat, idx=0):
+    spec = (cfg.get("impl") or {}).get(cat)
+    if cat == "dialog":
+        return spec or "async"
+    return spec[idx] if isinstance(spec, list) and idx < len(spec) and spec[idx] else "async"
+
+
+def custom_actions(cfg):
+    """(category, index, action name) of every custom action of a configuration, in registration order."""
+    out = []
+    for cat in ("in", "out"):
+        out += [(cat, i, pipeline.rail_action_name(cat, i, cfg["v"])) for i, kind in enumerate(cfg.get(cat, [])) if kind != "self"]
+    out += [("ret", i, pipeline.rail_action_name("ret", i, cfg["v"])) for i in range(int(cfg.get("ret", 0)))]
+    out.append(("dialog", 0, pipeline.dialog_action_name(cfg["v"])))
+    return out
+
+
+def _impl_actions(cfg):
+    """vf.pipeline extension hook: the action objects registered over the standard fakes (those that are not `async def`)."""
+    out = []
+    for cat, i, name in custom_actions(cfg):
+        kind = _impl_of(cfg, cat, i)
+        if kind == "async":
+            continue
+        if cat in ("in", "out"):
+            base = fakes.make_rail_action(cat, i, name)
+        elif cat == "ret":
+            base = fakes.make_retrieval_action(i, name)
+        else:
+            base = fakes.make_dialog_action(name)
+        out.append(implement(kind, base, name))
+    return out
+
+
+pipeline.register_extension(IMPL_EXT, actions=_impl_actions)
+
+
+def with_impl(cfg, kinds):
+    """cfg + the implementation kinds `kinds` (one per custom action, registration order; cycled if shorter)."""
+    acts = custom_actions(cfg)
+    impl = {"in": ["async"] * len(cfg.get("in", [])), "out": ["async"] * len(cfg.get("out", [])), "ret": ["async"] * int(cfg.get("ret", 0)), "dialog": "async"}
+    for n, (cat, i, _) in enumerate(acts):
+        k = kinds[n % len(kinds)]
+        if cat == "dialog":
+            impl["dialog"] = k
+        else:
+            impl[cat][i] = k
+    if all(_impl_of({"impl": impl}, cat, i) == "async" for cat, i, _ in acts):
+        return cfg  # the plain shape: nothing but the shared `async def` fakes
+    return dict(cfg, ext=IMPL_EXT, impl=impl)
+
+
+def impl_by_action(cfg):
+    return {name: _impl_of(cfg, cat, i) for cat, i, name in custom_actions(cfg)}
+
+
+# ------------------------------------------------------------------------------------------------
+# a deadline for every single generate call
+
+
+class _InnerTimeout(BaseException):
+    pass
+
+
+class _Deadline:
+    """Inner SIGALRM limit that restores an outer ITIMER_REAL (the runner's per-case watchdog) afterwards."""
+
+    def __init__(self, seconds):
+        self.seconds = seconds
+
+    def _fire(self, *_):
+        raise _InnerTimeout()
+
+    def __enter__(self):
+        self.t0 = time.monotonic()
+        self.left, _ = signal.getitimer(signal.ITIMER_REAL)
+        self.active = not self.left or self.left > self.seconds  # otherwise the outer watchdog fires first anyway
+        if self.active:
+            self.old = signal.signal(signal.SIGALRM, self._fire)
+            signal.setitimer(signal.ITIMER_REAL, self.seconds)
+        return self
+
+    def __exit__(self, *exc):
+        if self.active:
+            signal.setitimer(signal.ITIMER_REAL, 0)
+            signal.signal(signal.SIGALRM, self.old)
+            if self.left:
+                signal.setitimer(signal.ITIMER_REAL, max(0.05, self.left - (time.monotonic() - self.t0)))
+        return False
+
+
 def _sub(case, plan):
     return {"config": case["config"], "turns": case["turns"], "api": case.get("api", "sync"), "plan": [list(s) for s in plan], "exc": case.get("exc", "message")}
 
 
-def _turn(p, s, t):
-    """pipeline.Pipeline.turn; an exception that leaves `generate` and cannot be rendered (str() raises: kind "badstr") is
-    recorded by its class name instead of breaking the harness."""
+def _turn(p, s, t, limit=GENERATE_LIMIT):
+    """pipeline.Pipeline.turn under the per-call deadline `limit` (a call that does not return in time is recorded as
+    {"hang": limit}); an exception that leaves `generate` and cannot be rendered (str() raises: kind "badstr") is recorded by
+    its class name instead of breaking the harness."""
     n_trace, n_llm = len(s.trace), len(s.llm_calls)
     try:
-        return p.turn(s, t)
+        with _Deadline(limit):
+            return p.turn(s, t)
+    except _InnerTimeout:
+        # the call did not return: the instance and its event loop are in an undefined state, the caller discards them
+        s.messages.append({"role": "user", "content": s.turns[t]["user"]})
+        return {"reply": None, "raised": None, "hang": limit, "log": None, "trace": s.trace[n_trace:], "llm": s.llm_calls[n_llm:]}
     except TypeError as e:
         if "UnprintableError" not in str(e):
             raise
@@ -194,7 +413,7 @@ def _turn(p, s, t):
         return {"reply": None, "raised": "UnprintableError: <str() raises>", "log": None, "trace": s.trace[n_trace:], "llm": s.llm_calls[n_llm:]}
 
 
-def _run(case, plan, fresh=False, dry=None):
+def _run(case, plan, fresh=False, dry=None, limit=GENERATE_LIMIT):
     """Runs the conversation with `plan` (like pipeline.run_conversation, plus a snapshot of the caller-side state after every
     turn).  Colang 2.x only, reused instance only: when `dry` is given the turns before the first planned fault are not
     executed again - the run starts from the `state` value the dry run got back before that turn (the state is a
@@ -217,12 +436,20 @@ def _run(case, plan, fresh=False, dry=None):
             s.messages = list(dry.snapshots[t0 - 1]["messages"])
             turns = list(dry.turns[:t0])
         snapshots = [None] * t0
+        hung = False
         for t in range(t0, n):
-            turns.append(_turn(p, s, t))
+            turns.append(_turn(p, s, t, limit))
             snapshots.append({"state": s.state, "messages": list(s.messages)})
+            if turns[-1].get("hang"):
+                # the conversation ends here (obs.turns is shorter than case["turns"]); the LLMRails instance, the event
+                # loop with the never-finishing task and every cached instance living on that loop are discarded
+                hung = True
+                pipeline.reset_runtime()
+                break
         obs = pipeline.Observations(sub, s, turns, p)
         obs.snapshots = snapshots
-        obs.executed = n - t0
+        obs.executed = len(turns) - t0
+        obs.hung = hung
         return obs
     except BaseException:
         pipeline.reset_runtime()
@@ -289,8 +516,19 @@ def _case(draw, tier):
         plans = "pairs"
     else:
         plans = draw(st.sampled_from(["singles"] * 5 + ["pairs"])) if v == 1 else "singles"
-    return {"config": cfg, "turns": turns, "api": draw(st.sampled_from(["sync", "sync", "async"])), "plans": plans,
-            "exc": draw(st_exc_kind())}
+    api = draw(st.sampled_from(["sync", "sync", "async"]))
+    exc = draw(st_exc_kind())
+    # implementation kind of every custom action: a quarter of the cases keep the plain shape (every action the shared
+    # `async def` fake), the others draw one kind per action (drawn last: earlier draws keep their meaning)
+    if draw(st.sampled_from(["mixed", "mixed", "mixed", "async"])) == "mixed":
+        cfg = with_impl(cfg, [draw(st_impl_kind()) for _ in custom_actions(cfg)])
+    return {"config": cfg, "turns": turns, "api": api, "plans": plans, "exc": exc}
+
+
+def st_impl_kind():
+    """Implementation kind of one custom action: async functions 5/15, synchronous functions 6/15 (plain def 3, bound method 2,
+    lambda 1), objects with a run method 3/15, plain def returning a coroutine 1/15."""
+    return st.sampled_from(["async"] * 4 + ["sync"] * 3 + ["method"] * 2 + ["class"] * 2 + ["lambda", "async-method", "instance", "sync-coro"])
 
 
 def st_exc_kind():
@@ -327,20 +565,33 @@ def enumerate_cases(tier):
             for t, r in enumerate(routes)
         ]
         yield {"config": cfg, "turns": turns, "api": "sync", "plans": "pairs" if (tier == "thorough" or cfg["v"] == 1) else "singles"}
-    # every exception kind of the pool x both Colang versions: 2-turn all-accepting conversations with an input rail, an output
-    # rail and the custom dialog action as sites in each turn (configurations rotate over the kinds)
-    small = {
-        1: [_mk_cfg(1, ["check"], ["check"], True, False), _mk_cfg(1, ["check", "rewrite"], ["check"], True, True), _mk_cfg(1, ["both"], ["rewrite", "check"], True, False, ret=1)],
-        2: [_mk_cfg(2, ["check"], ["check"], True, False), _mk_cfg(2, ["check"], ["check"], True, True, style="hand")],
-    }
+    # every exception kind of the pool x every implementation kind (Colang 1.0) / every implementation family (Colang 2.x, whose
+    # turns cost 20x more; the dispatcher is the same): 2-turn all-accepting conversations with input-rail, output-rail and
+    # dialog-action sites in each turn, single plans.
+    #   v1: per exception kind two conversations; the 8 kinds (rotated with the exception kind) are dealt to the custom actions of
+    #       the first (configurations rotate over the exception kinds as before) and the remaining ones to those of the second,
+    #       whose configuration has as many actions as are left;
+    #   v2: per exception kind one conversation with two input rails, two output rails and the dialog action, implemented by one
+    #       kind of each of the 4 families + a second synchronous function (kinds within a family and positions rotate)
+    small = [_mk_cfg(1, ["check"], ["check"], True, False), _mk_cfg(1, ["check", "rewrite"], ["check"], True, True), _mk_cfg(1, ["both"], ["rewrite", "check"], True, False, ret=1)]
+    rest = {3: _mk_cfg(1, ["both"], ["check"], True, True), 4: _mk_cfg(1, ["check", "both"], ["check"], True, False), 5: _mk_cfg(1, ["check", "check"], ["rewrite", "check"], True, False)}
+    v2 = [_mk_cfg(2, ["check", "check"], ["check", "check"], True, False), _mk_cfg(2, ["check", "check"], ["check", "check"], True, True, style="hand")]
+    fam = {f: [k for k in IMPL_ORDER if IMPL_KINDS[k] == f] for f in IMPL_KINDS.values()}
     for i, kind in enumerate(sorted(EXC_KINDS)):
-        for v in (1, 2):
-            cfg = small[v][i % len(small[v])]
+        order = IMPL_ORDER[i % len(IMPL_ORDER):] + IMPL_ORDER[: i % len(IMPL_ORDER)]
+        first = small[i % len(small)]
+        n_first = len(custom_actions(first))
+        five = [fam["async-function"][i % 2], fam["sync-function"][i % 3], fam["object-with-run"][i % 2], fam["sync-returning-coroutine"][0], fam["sync-function"][(i + 1) % 3]]
+        for cfg, kinds, routes in (
+            (first, order[:n_first], ["act_llm", "llm"] if i % 2 else ["llm", "act_llm"]),
+            (rest[len(order) - n_first], order[n_first:], ["llm", "act_llm"] if i % 2 else ["act_llm", "llm"]),
+            (v2[i % len(v2)], five[i % 5:] + five[: i % 5], ["act_llm", "llm"] if i % 2 else ["llm", "act_llm"]),
+        ):
             turns = [
                 {"user": f"{fakes.mk_user(t)} what is the status", "route": r, "in": ["accept"] * len(cfg["in"]), "out": ["accept"] * len(cfg["out"]), "body": "some answer"}
-                for t, r in enumerate(["act_llm", "llm"] if i % 2 else ["llm", "act_llm"])
+                for t, r in enumerate(routes)
             ]
-            yield {"config": cfg, "turns": turns, "api": "async" if i % 3 == 2 else "sync", "plans": "singles", "exc": kind}
+            yield {"config": with_impl(cfg, kinds), "turns": turns, "api": "async" if i % 3 == 2 else "sync", "plans": "singles", "exc": kind}
 
 
 # ------------------------------------------------------------------------------------------------
@@ -401,14 +652,28 @@ def _judge(case, dry, obs, plan):
     def count(key, n=1):
         counters[key] = counters.get(key, 0) + n
 
+    impls = impl_by_action(cfg)
     what0 = f"{ver} plan {plan}"
+    if any(k != "async" for k in impls.values()):
+        what0 += " (actions implemented as " + ", ".join(f"{a}: {k}" for a, k in impls.items()) + ")"
     first_fault_turn = None
     reached = 0
     faulted_turns = []
     classes_hit = set()
+    hit_impl = set()
     for t, (spec, o, d) in enumerate(zip(case["turns"], obs.turns, dry.turns)):
         what = f"{what0}, turn {t}"
         # (i) generate returns
+        if o.get("hang"):
+            at = [e["action"] for e in o["trace"] if e.get("verdict") == "raise"]
+            if not at and first_fault_turn is None:
+                raise RuntimeError(f"harness: {what}: generate did not return within {o['hang']} s although no fault was injected so far")
+            why = f"after the action {at[-1]} ({impls.get(at[-1], '?')}) raised {case.get('exc', 'message')!r}" if at else f"in a turn without a fault, after the fault(s) of turn(s) {faulted_turns}"
+            raise Violation(
+                "generate-hangs",
+                f"{what}: generate did not return within {o['hang']} s (a turn normally takes well under 1 s) {why}",
+                _detail(cfg, plan, t, impl=impls.get(at[-1]) if at else None),
+            )
         if o["raised"]:
             raise Violation("generate-raised", f"{what}: generate raised {o['raised'][:300]}", _detail(cfg, plan, t))
         rep = o["reply"]
@@ -461,6 +726,10 @@ def _judge(case, dry, obs, plan):
             labels.add(f"fault-in-{cls}")
             labels.add(f"{ver}-fault-in-{cls}")
             count(f"fault.{ver}.{cls}")
+            how = impls.get(fe["action"], "async")
+            labels.add(f"fault-in-impl={IMPL_KINDS[how]}")
+            count(f"fault.impl.{how}")
+            hit_impl.add(how)
             if t >= 1:
                 labels.add("fault-in-turn>=2")
                 labels.add(f"{ver}-fault-in-turn>=2")
@@ -539,7 +808,7 @@ def _judge(case, dry, obs, plan):
     elif reached >= 2:
         labels.add("two-faults-in-one-turn")
     rail_hit = any(lab.startswith("fault-in-input-rail") or lab.startswith("fault-in-output-rail") for lab in labels)
-    return {"labels": labels, "counters": counters, "rail_hit": rail_hit, "reached": reached, "faulted_turns": faulted_turns}
+    return {"labels": labels, "counters": counters, "rail_hit": rail_hit, "reached": reached, "faulted_turns": faulted_turns, "hit_impl": hit_impl}
 
 
 def _plan_view(obs, plan, info):
@@ -562,6 +831,8 @@ def prop(case):
     v = cfg["v"]
     dry = _run(case, [])
     for t, o in enumerate(dry.turns):
+        if o.get("hang"):
+            raise RuntimeError(f"generate did not return within {o['hang']} s in turn {t} of the fault-free run")
         if o["raised"]:
             if pipeline.EVENT_BUDGET in o["raised"]:
                 return ok(skip="v1 runtime gave up in the fault-free run: more than 100 new events in one turn (documented safety limit)", labels=["event-budget-exceeded"])
@@ -580,22 +851,37 @@ def prop(case):
         labels.add("v2-" + cfg.get("style", "config"))
     if cfg.get("ret"):
         labels.add("retrieval-rail")
+    # how the custom actions of the configuration are implemented (family = label, kind = counter, like the exception)
+    impls = impl_by_action(cfg)
+    labels |= {"impl=" + IMPL_KINDS[k] for k in impls.values()}
+    labels.add("impl:all-async-def" if set(impls.values()) == {"async"} else "impl:mixed")
     if any(any(x != "accept" for x in spec.get("in", []) + spec.get("out", [])) for spec in case["turns"]):
         labels.add("conversation-with-reject-or-rewrite")
     counters = {"plans": 0, "plans.single": 0, "plans.pair": 0, "sites": len(sites), "runs": 1, "turns-executed": len(case["turns"]), "cases.raises." + case.get("exc", "message"): 1}
+    for k in impls.values():
+        counters["actions.impl." + k] = counters.get("actions.impl." + k, 0) + 1
     nt = False
     views = []
+    hit_impl = set()
     for plan in plans:
         obs = _run(case, plan, dry=dry)
         try:
             info = _judge(case, dry, obs, plan)
         except Violation as first:
-            # instance reuse must not be able to fabricate a finding: confirm on fresh LLMRails instances
+            # instance reuse must not be able to fabricate a finding: confirm on fresh LLMRails instances; a generate call
+            # that ran into its deadline is repeated there (same history) with three times the limit
+            hang = first.kind == "generate-hangs"
             dry2 = _run(case, [], fresh=True)
             try:
-                _judge(case, dry2, _run(case, plan, fresh=True), plan)
+                _judge(case, dry2, _run(case, plan, fresh=True, limit=GENERATE_LIMIT_CONFIRM if hang else GENERATE_LIMIT), plan)
             except Violation:
                 raise
+            if hang:
+                # slow, not stuck (machine load): the statement is about returning, not about speed - counted, not reported;
+                # the repeated run is the one that is judged
+                counters["generate-calls-over-limit-not-confirmed"] = counters.get("generate-calls-over-limit-not-confirmed", 0) + 1
+                labels.add("generate-call-over-limit-not-confirmed")
+                continue
             raise RuntimeError(f"harness: violation seen only on a reused LLMRails instance, not on fresh ones: {first}")
         counters["plans"] += 1
         counters["plans.single" if len(plan) == 1 else "plans.pair"] += 1
@@ -604,6 +890,7 @@ def prop(case):
         for k, n in info["counters"].items():
             counters[k] = counters.get(k, 0) + n
         labels |= info["labels"]
+        hit_impl |= info["hit_impl"]
         if info["rail_hit"]:
             nt = True
             counters["plans.nontrivial"] = counters.get("plans.nontrivial", 0) + 1
@@ -613,6 +900,9 @@ def prop(case):
             views.append(_plan_view(obs, plan, info))
     if not plans:
         labels.add("no-call-site")
+    # the product implementation family x exception family, counted once per case in which such a fault was executed
+    for fam in sorted({IMPL_KINDS[k] for k in hit_impl}):
+        counters[f"cases.fault.{fam}.raises.{EXC_FAMILY[case.get('exc', 'message')]}"] = 1
     view = {"dry_run": pipeline.view(case, dry), "sites": sites, "plans_run": len(plans), "sample_plans": views}
     return ok(nt=nt, labels=sorted(labels), view=view, counters=counters)
 
